@@ -399,6 +399,83 @@ pub fn geometry_class(case: &Case) -> Vec<String> {
     v
 }
 
+/// Classes of the generated volume and tree, for the evidence (one count per case having the class).
+pub fn tree_classes(case: &Case) -> Vec<String> {
+    use crate::mkfs::Slot;
+    let mut v: Vec<String> = Vec::new();
+    fn walk(slots: &[Slot], depth: u32, f: &mut dyn FnMut(&Slot, u32)) {
+        for s in slots {
+            f(s, depth);
+            if let Slot::Dir { children, .. } = s {
+                walk(children, depth + 1, f);
+            }
+        }
+    }
+    for (slot, vs) in case.disk.vols.iter().enumerate() {
+        let Some(vs) = vs else { continue };
+        let g = &vs.geom;
+        v.push(format!("vol:partition-slot-{}", slot));
+        v.push(format!("vol:fsinfo-{}", match g.fsinfo { FsInfoKind::Correct => "correct", FsInfoKind::Unknown => "unknown", FsInfoKind::Stale { .. } => "stale" }));
+        let eps = if g.fat32 { 128 } else { 256 };
+        v.push(format!("vol:last-fat-sector-{}", match (g.clusters + 2) % eps { 0 => "exactly-full", 1 => "one-entry", _ => "partly-used" }));
+        if g.fat_slack > 0 {
+            v.push("vol:fat-has-slack-sectors".into());
+        }
+        if g.hi_nibbles {
+            v.push("vol:fat32-high-nibbles-set".into());
+        }
+        if vs.stale {
+            v.push("vol:stale-data-area".into());
+        }
+        if vs.usable.fragmented {
+            v.push("tree:fragmented-chains".into());
+        }
+        v.push(format!("vol:free-clusters-{}", match (vs.usable.all, vs.usable.free_after) { (_, Some(0)) => "0", (_, Some(1..=8)) => "1-8", (_, Some(_)) => "9-99", (true, None) => "unrestricted", (false, None) => "usable-set-remainder" }));
+        if !g.fat32 {
+            v.push(format!("vol:fat16-root-free-slots-{}", match vs.root_pad_free { Some(0) => "0", Some(1) => "1", Some(_) => "2+", None => "many" }));
+        }
+        let (mut lfn, mut del, mut multi_dir, mut multi_file, mut depth_max, mut ro) = (false, false, vs.root_extra > 0, false, 0u32, false);
+        let cb = g.spc as u32 * 512;
+        walk(&vs.root, 0, &mut |s, d| {
+            depth_max = depth_max.max(d);
+            let pre = match s {
+                Slot::File { pre, size, extra, attr, .. } => {
+                    if *size > cb || *extra > 0 {
+                        multi_file = true;
+                    }
+                    if attr & 1 != 0 {
+                        ro = true;
+                    }
+                    pre
+                }
+                Slot::Dir { pre, extra, .. } => {
+                    if *extra > 0 {
+                        multi_dir = true;
+                    }
+                    pre
+                }
+                Slot::Raw(r) => r,
+            };
+            for r in pre.iter() {
+                if r[0] == 0xE5 {
+                    del = true;
+                } else if r[11] == 0x0F {
+                    lfn = true;
+                }
+            }
+        });
+        for (flag, name) in [(lfn, "tree:has-lfn-run"), (del, "tree:has-deleted-slot"), (multi_dir, "tree:multi-cluster-directory"), (multi_file, "tree:multi-cluster-file"), (ro, "tree:has-read-only-file")] {
+            if flag {
+                v.push(name.into());
+            }
+        }
+        v.push(format!("tree:depth-{}", depth_max));
+    }
+    v.sort();
+    v.dedup();
+    v
+}
+
 fn first_relevant<'a>(divs: &'a [Divergence], prop: &str) -> Option<&'a Divergence> {
     divs.iter().find(|d| {
         d.prop == prop
@@ -419,16 +496,8 @@ pub fn abbreviate(case: &Case) -> serde_json::Value {
     })
 }
 
-/// Execute one case under the oracle of `cfg.prop`.
-pub fn run_case(cfg: &FsxCfg, case: &Case, acc: &mut Acc, known: &[KnownFinding], verbose: bool) -> Result<(), Failure> {
-    let prop = cfg.prop;
-    let opts = Opts {
-        track_space: matches!(prop, "C05"),
-        ..Opts::default()
-    };
-    let mut it = Interp::new(case, opts);
-    it.tolerate = known.iter().filter(|k| k.status == "open" && k.property == prop).map(|k| k.signature.clone()).collect();
-    let mut ctx = Ctx {
+pub fn make_ctx<'a>(cfg: &'a FsxCfg, it: &Interp) -> Ctx<'a> {
+    Ctx {
         cfg,
         initial: it.disk.snapshot(),
         vols: it
@@ -443,7 +512,19 @@ pub fn run_case(cfg: &FsxCfg, case: &Case, acc: &mut Acc, known: &[KnownFinding]
             })
             .collect(),
         failures: vec![],
+    }
+}
+
+/// Execute one case under the oracle of `cfg.prop`.
+pub fn run_case(cfg: &FsxCfg, case: &Case, acc: &mut Acc, known: &[KnownFinding], verbose: bool) -> Result<(), Failure> {
+    let prop = cfg.prop;
+    let opts = Opts {
+        track_space: matches!(prop, "C05" | "C04"),
+        ..Opts::default()
     };
+    let mut it = Interp::new(case, opts);
+    it.tolerate = known.iter().filter(|k| k.status == "open" && k.property == prop).map(|k| k.signature.clone()).collect();
+    let mut ctx = make_ctx(cfg, &it);
     let mut steps: Vec<Step> = ops::prologue();
     steps.extend(case.steps.iter().cloned());
     steps.push(Step { op: Op::CheckAll, surf: 0, tick: 1 });
@@ -588,6 +669,17 @@ pub fn run_case(cfg: &FsxCfg, case: &Case, acc: &mut Acc, known: &[KnownFinding]
     for (k, v) in flags {
         if v {
             acc.class(k);
+        }
+    }
+    for c in &nt_flags.cells {
+        acc.class(&format!("cell:{}", c));
+    }
+    for c in tree_classes(case) {
+        acc.class(&c);
+    }
+    for (k, name) in ["raw", "raii", "embedded-io"].iter().enumerate() {
+        if case.steps.iter().any(|st| st.surf as usize % 3 == k) {
+            acc.class(&format!("surface:{}", name));
         }
     }
     acc.class(&format!("files-open-max:{}", s.max_files_open.min(4)));
@@ -814,8 +906,8 @@ pub fn rule_for(prop: &str) -> &'static str {
         "C01" => "proptest-generated cases (disk geometry x pre-populated tree x 1-60 ops over raw/RAII/embedded-io surfaces); non-trivial = contains a mid-block or cross-cluster write later overlapped by a read, or a backwards seek, or two open files written alternately; distinct = hash of (geometry classes, op-kind sequence, flags)",
         "C02" => "generated histories with create/write/truncate/delete/mkdir; oracle at every flush/close/delete/mkdir and at the end (independent reader + fresh VolumeManager + untouched-entry diff); non-trivial = a dirty file with non-zero length was flushed/closed; distinct by (geometry, op-kind sequence, flags)",
         "C03" => "generated histories on tight volumes (0-8 free clusters, padded directories); structural check after every call incl. failing ones; non-trivial = allocation after a free, or an error other than NotFound, or a full volume/root reached; distinct by (geometry, op-kind sequence, flags)",
-        "C04" => "generated histories; every logged device write of every call classified by region/ownership against the pre-call image; non-trivial = partial-block write, allocation with <= 2 free clusters, or multi-partition device; distinct by (geometry, op-kind sequence, flags)",
-        "C05" => "generated create/extend/truncate/delete/mkdir histories on tight volumes; FAT in-use set vs reachable chains whenever no file is open; out-of-space errors checked against a FAT scan taken before the call; non-trivial = allocation after a free or a space error reached; distinct by (geometry, op-kind sequence, flags)",
+        "C04" => "generated histories; every logged device write of every call classified by region/ownership against the pre-call image; second stage: the same classifier on histories in which one device call fails (reads scribbled; up to 24 / 160 fault positions per history): full rule set while the medium is consistent (before the fault and after a fault in a read-only call), reduced set for the faulted call, region rules only after a mutating call was cut short; non-trivial = partial-block write, a writing call with <= 2 free clusters, two FAT volumes on the device, or (fault stage) a writing call judged by the full rule set after a read fault; distinct by (geometry, op-kind sequence, flags[, fault position])",
+        "C05" => "generated create/extend/truncate/delete/mkdir histories on tight volumes; FAT in-use set vs reachable chains whenever no file is open; out-of-space errors checked against a FAT scan taken before the call; second stage: fill / release / refill cycles (1-300 free clusters, 1-2 files written alternately until every write reports out-of-space, released by delete or truncate, 2-5 cycles): bytes accepted == (free + held clusters) x cluster size in every cycle, no cluster free at out-of-space, everything reads back, everything returned on release; non-trivial = allocation after a free or a space error reached, or (fill stage) >= 2 cycles reached full; distinct by (geometry, op-kind sequence, flags) / (geometry, free count, bytes per cycle, release kinds)",
         "C16" => "generated FAT32 histories with correct/unknown/stale FSInfo; FAT copies compared after every call, FSInfo delta vs FAT-scan delta after every dirty flush / volume close; non-trivial = FSInfo checked after an allocation following a free; distinct by (geometry, op-kind sequence, flags)",
         "C06" => "see run_c06",
         "C08" => "generated open/close histories over 12 (dirs,files,volumes) limit configurations with id offsets near u32::MAX; every method taking a handle is called with a closed handle (all methods per Stale op), and every public Result-returning method is called re-entrantly from iterate_dir / iterate_dir_lfn callbacks (all 23 per Reenter op); non-trivial = a stale or re-entrant op ran or a limit was reached; distinct by (geometry, op-kind sequence, flags)",
